@@ -497,6 +497,38 @@ theorem lstsq_total_complex [DecidableEq ℂ] (b : Basis ℂ) (hb : WF b)
   obtain ⟨x, hx⟩ := lstsq_complete_complex b hb hind (linComb b c) (linComb_length b hb c)
   rw [hx, lstsq_model_recovers_complex b hb hind c x hc hx]
 
+/-- **An answer of the model certifies independence** (any field, any `conj`): if `lstsq`
+answers for some right-hand side, the linear-combination map is injective.  This is the bridge
+from the executed model to the hypothesis `hind` of the theorems above: the harness only compares
+`coefficients_for` where the model answered. -/
+theorem lstsq_some_independent {K : Type} [Field K] [DecidableEq K] (conj : K → K) (b : Basis K)
+    (hb : WF b) (x y : List K) (h : lstsq conj b y = some x) :
+    ∀ v₁ v₂ : List K, v₁.length = b.nmodes → v₂.length = b.nmodes →
+      linComb b v₁ = linComb b v₂ → v₁ = v₂ :=
+  fun v₁ v₂ h₁ h₂ hlc => lstsq_unique conj b hb x y h v₁ v₂ h₁ h₂ hlc
+
+/-- **The model answers exactly for the independent bases** — real scalars, every right-hand
+side of the right length: "`lstsq` answers" is a decision procedure for "the modes are linearly
+independent". -/
+theorem lstsq_answers_iff_independent {R : Type} [Field R] [LinearOrder R] [IsStrictOrderedRing R]
+    (b : Basis R) (hb : WF b) (y : List R) (hy : y.length = b.npix) :
+    (∃ x, lstsq id b y = some x) ↔
+    (∀ v₁ v₂ : List R, v₁.length = b.nmodes → v₂.length = b.nmodes →
+      linComb b v₁ = linComb b v₂ → v₁ = v₂) :=
+  ⟨fun ⟨x, h⟩ => lstsq_some_independent id b hb x y h, fun hind => lstsq_complete b hb hind y hy⟩
+
+/-- **Whatever the model answers for `A·c` is `c`** — no independence hypothesis, no
+certificate: the hypothesis is only that `lstsq` answered (which it does exactly for independent
+modes).  Real scalars; any storage form. -/
+theorem lstsq_answer_exact {R : Type} [Field R] [LinearOrder R] [IsStrictOrderedRing R]
+    (b : Basis R) (hb : WF b) (c x : List R) (hc : c.length = b.nmodes)
+    (h : lstsq id b (linComb b c) = some x) : x = c :=
+  lstsq_model_recovers b hb (lstsq_some_independent id b hb x _ h) c x hc h
+
+theorem lstsq_answer_exact_complex [DecidableEq ℂ] (b : Basis ℂ) (hb : WF b) (c x : List ℂ)
+    (hc : c.length = b.nmodes) (h : lstsq (starRingEnd ℂ) b (linComb b c) = some x) : x = c :=
+  lstsq_model_recovers_complex b hb (lstsq_some_independent _ b hb x _ h) c x hc h
+
 /-- **`coefficients_for` does not depend on the storage form**: bases that denote the same
 matrix give the same answer (the same coefficients, or the same "dependent modes" failure) of the
 executable least-squares model, for every right-hand side and every scalar type. -/
@@ -622,6 +654,20 @@ theorem mirror_opd_ideal (infl : List (List K)) (n : Nat) (ops : List (Op K)) :
   show double (read m).2 = double (matvec (spec m).infl (spec m).acts)
   rw [read_snd _ (mirror_cache_invariant infl n ops)]
   rfl
+
+/-- **Every read-out that goes through the `surface` property sees `IF · actuators`**: `opd`,
+`phase_for`, `forward`, `backward` evaluate `self.surface` once and post-process the array (`g`);
+in any reachable state the result is `g (IF · current actuators)` and the state change is that
+of a read.  (`g` for `opd` is executed by the driver; the transcendental `g` of the other three
+is compared numerically by the harness.) -/
+theorem mirror_readout_ideal {β : Type} (g : List K → β) (infl : List (List K)) (n : Nat)
+    (ops : List (Op K)) :
+    let m := (run (init infl n) ops).1
+    (readOut g m).2 = g (matvec m.infl (acts m)) ∧ (readOut g m).1 = (read m).1 := by
+  intro m
+  refine ⟨?_, rfl⟩
+  show g (read m).2 = g (matvec m.infl (acts m))
+  rw [read_snd _ (mirror_cache_invariant infl n ops)]
 
 /-- **Returned surfaces are the caller's own**: in any reachable state, an in-place edit of any
 array that any earlier read returned changes neither the cached surface array nor what the next
